@@ -1,4 +1,6 @@
 """C05 — every authorship note is well-formed, self-contained and matches its commit."""
+import os
+
 from .c02 import C02, HistoryProp
 from .. import hist, noteparse, gen
 from ..engine import in_progress
@@ -130,6 +132,11 @@ class C05(C02):
                     return v
         return None
 
+    def make_exec(self, root, trace):
+        ex = C02.make_exec(self, root, trace)
+        ex.w.extra_env["GIT_AI_VERIF_TRACE"] = os.path.join(ex.w.root, "verif.trace")
+        return ex
+
     def monitor(self, ex, i, op, res, cfg):
         if cfg.get("hazards", {}).get("names"):
             ex.probe("hazard.names")
@@ -145,7 +152,22 @@ class C05(C02):
         if op["op"] not in ("git", "gitai"):
             return None
         repo = ex.repo(op)
-        return check_all_notes(ex, repo, ex.gen_state.setdefault("note_cache", {}))
+        # did this command copy notes through the shortcut (reach probe of hook H7)?  the listed replay-path defect
+        # (rebase_note_lines_beyond_file) cannot be what a shortcut-written note suffers from
+        taken = False
+        tp = os.path.join(ex.w.root, "verif.trace")
+        try:
+            with open(tp) as f:
+                taken = any("\tprobe\tfastpath." in ln and ln.rstrip().endswith(".taken") for ln in f)
+            os.remove(tp)
+        except OSError:
+            pass
+        if taken:
+            ex.probe("fastpath.taken")
+        v = check_all_notes(ex, repo, ex.gen_state.setdefault("note_cache", {}))
+        if v:
+            v["detail"]["shortcut_taken"] = taken
+        return v
 
 
 
